@@ -33,7 +33,7 @@ def gates(tier):
         "min_decided": {a: 1500 * k for a in APIS},
         "shapes": {c: 3 * k for c in ["nullable_nonstart", "nullable_cycle", "unary_cycle", "recursive", "finite_language",
                                       "prefix:dead", "prefix:live", "sr:Q", "sr:Boolean", "sr:MaxTimes", "sr:Real",
-                                      "oracle-crosscheck", "derivative:tagged", "derivative:resumed-chain"]},
+                                      "oracle-crosscheck", "derivative:tagged", "derivative:resumed-chain", "scale:big-grammar"]},
         "min_hashseeds": 2,
     }
 
@@ -41,6 +41,12 @@ def gates(tier):
 def gen_case(rng, spec):
     from rv.gen import grammars as GG
 
+    if rng.random() < 0.05:
+        # scale: 10-16 nonterminals, 6-10 terminals; prefixes of sampled members up to 10 tokens, and edits of them
+        bigR = rng.choice(["Float", "Q", "Boolean", "MaxTimes"])
+        g = GG.gen_big_grammar(rng, recursion=bigR != "Q")
+        return {"g": {k: g[k] for k in ("S", "V", "rules")}, "R": bigR, "maxlen": 1,
+                "big": rng.randrange(1 << 30)}
     tmpl = rng.choice([None, None, None, "eps", "nullable_cycle", "unary_cycle", "finite", "centre_rec", "unary_via_nullable"])
     g = GG.gen_grammar(rng, template=tmpl)
     an = GG.analyse(g)
@@ -64,7 +70,11 @@ def run_case(case, ctx):
     cls = an["classes"]
     try:
         O = lib.oracle_for(g, R)
-        prefixes = list(GG.strings_upto(g["V"], case["maxlen"]))
+        if case.get("big"):
+            ctx.shape["scale:big-grammar"] += 1
+            prefixes = GG.case_strings(g, 1, case["big"], k=5, max_len=10, prefixes=True)
+        else:
+            prefixes = list(GG.strings_upto(g["V"], case["maxlen"]))
         want = {p: O.prefix_weight(p) for p in prefixes}
         wstr = {x: O.weight(x) for x in GG.strings_upto(g["V"], case["maxlen"])}
     except (cfgref.NotApplicable, cfgref.Singular, cfgref.NoConverge) as e:
@@ -130,9 +140,13 @@ def run_case(case, ctx):
         if ok:
             judge(APIS[1], v, want[p], c2, "prefix_grammar" + ("/empty-prefix" if not p else ""))
     # derivative route
+    nlong = 0
     for p in prefixes:
         if len(p) > 2:
-            continue
+            # long derivative chains only for the sampled prefixes of big grammars (a few of them)
+            if not case.get("big") or nlong >= 8:
+                continue
+            nlong += 1
         c2 = dict(case, p=list(p))
         ok, D = ctx.call(APIS[2], c2, cfg.derivatives, p)
         if ok:
